@@ -227,7 +227,8 @@ impl Executor {
                 // SAFETY: We're removing it soon, so drop will only be called once.
                 // The shared pointer is kept valid until the Executor is dropped,
                 // to avoid use-after-free issues with concurrent wakers.
-                unsafe { task.drop() };
+                // The task ran to its end: its `JoinHandle` waker, if any, was woken by `run`.
+                drop(unsafe { task.drop() });
                 queue.remove(id);
             } else {
                 queue.reset(id, task);
